@@ -146,10 +146,10 @@ Definition is_digit (c : N) : bool := (48 <=? c) && (c <=? 57).
 Definition is_alnum (c : N) : bool :=
   is_digit c || ((65 <=? c) && (c <=? 90)) || ((97 <=? c) && (c <=? 122)).
 
-Inductive token := TItem (i : item) | TOpen | TClose | TDollar.
+Inductive token := TItem (i : item) | TOpen | TClose | TDollar | TName (n : str) (* ?P<n> right after TOpen *).
 
 (* what is waiting for a possible quantifier at top level *)
-Inductive pend := P0 | PA (cs : cset) | PQ (cs : cset) (mn : nat) (mx : option nat).
+Inductive pend := P0 | PA (cs : cset) | PQ (cs : cset) (mn : nat) (mx : option nat) | POpen (* just after an opening parenthesis *).
 
 (* inside [...]: nothing pending / a literal that may start a range / literal and '-' *)
 Inductive cpend := CP0 | CPChar (x : N) | CPDash (x : N) | CPCat | CPCatDash.
@@ -162,11 +162,12 @@ Inductive lstate :=
 | LClsEsc (neg : bool) (acc : list (N * N)) (p : cpend)
 | LBrMin (cs : cset) (ds : list N)
 | LBrMax (cs : cset) (mn : nat) (ds : list N)
+| LGrpQ | LGrpP | LGrpName (acc : str)      (* after "(?", "(?P", "(?P<" *)
 | LFail.
 
 Definition flush (p : pend) : list token :=
   match p with
-  | P0 => []
+  | P0 | POpen => []
   | PA cs => [TItem (mkItem cs 1 (Some 1%nat) true)]
   | PQ cs mn mx => [TItem (mkItem cs mn mx true)]
   end.
@@ -217,6 +218,7 @@ Definition top_step (p : pend) (c : N) : lstate * list token :=
     match p with
     | PA cs => (LTop (PQ cs 0 (Some 1%nat)), [])
     | PQ cs mn mx => (LTop P0, [TItem (mkItem cs mn mx false)])
+    | POpen => (LGrpQ, [])                       (* "(?": only (?P<name> is modelled *)
     | P0 => (LFail, [])
     end
   else if c =? 123 then                             (* { *)
@@ -224,7 +226,7 @@ Definition top_step (p : pend) (c : N) : lstate * list token :=
   else if c =? 92 then (LEsc, flush p)
   else if c =? 46 then (LTop (PA CDot), flush p)
   else if c =? 91 then (LClsStart, flush p)
-  else if c =? 40 then (LTop P0, flush p ++ [TOpen])
+  else if c =? 40 then (LTop POpen, flush p ++ [TOpen])
   else if c =? 41 then (LTop P0, flush p ++ [TClose])
   else if c =? 36 then (LTop P0, flush p ++ [TDollar])
   else if (c =? 94) || (c =? 93) || (c =? 125) || (c =? 124) then (LFail, [])
@@ -265,6 +267,16 @@ Definition lex_step (st : lstate) (c : N) : lstate * list token :=
                else (LFail, [])
         end
       else (LFail, [])
+  | LGrpQ => if c =? 80 then (LGrpP, []) else (LFail, [])
+  | LGrpP => if c =? 60 then (LGrpName [], []) else (LFail, [])
+  | LGrpName acc =>
+      if c =? 62 then match acc with [] => (LFail, []) | _ => (LTop P0, [TName (rev acc)]) end
+      else if is_alnum c || (c =? 95) then
+        match acc with
+        | [] => if is_digit c then (LFail, []) else (LGrpName [c], [])
+        | _ => (LGrpName (c :: acc), [])
+        end
+      else (LFail, [])
   | LFail => (LFail, [])
   end.
 
@@ -296,6 +308,7 @@ Fixpoint build (ts : list token) (grp : option (list item)) (done : list piece)
   | TOpen :: r => match grp with None => build r (Some []) done | Some _ => None end
   | TClose :: r => match grp with Some g => build r None (PGrp (rev g) :: done) | None => None end
   | TDollar :: r => match r, grp with [], None => Some (rev done, true) | _, _ => None end
+  | TName _ :: r => build r grp done
   end.
 
 (* re.compile(pattern) for the fragment; a leading `^` is a no-op for Pattern.match *)
@@ -311,6 +324,40 @@ Definition rx_parse (pat : str) : option regex :=
       end
   | None => None
   end.
+
+(* regex.groupindex, by group position: the name of each group, if it has one *)
+Fixpoint names_of (ts : list token) : list (option str) :=
+  match ts with
+  | [] => []
+  | TOpen :: r =>
+      match r with
+      | TName n :: r' => Some n :: names_of r'
+      | _ => None :: names_of r
+      end
+  | _ :: r => names_of r
+  end.
+Definition pat_names (pat : str) : list (option str) :=
+  match lexf (strip_caret pat) with Some ts => names_of ts | None => [] end.
+
+Definition is_none {A} (o : option A) : bool := match o with None => true | Some _ => false end.
+Fixpoint all_some {A} (l : list (option A)) : option (list A) :=
+  match l with
+  | [] => Some []
+  | Some x :: r => match all_some r with Some xs => Some (x :: xs) | None => None end
+  | None :: _ => None
+  end.
+Fixpoint nodup_str (l : list str) : bool :=
+  match l with [] => true | x :: r => negb (existsb (str_eqb x) r) && nodup_str r end.
+
+(* `assert len(regex.groupindex) in (0, regex.groups)`: all groups named or none;
+   a repeated name is an re.error *)
+Definition names_okb (names : list (option str)) : bool :=
+  forallb is_none names
+  || match all_some names with Some ns => nodup_str ns | None => false end.
+
+(* the keyword names under which groups are passed (`if self.regex.groupindex:`) *)
+Definition kw_names (names : list (option str)) : option (list str) :=
+  if forallb is_none names then None else all_some names.
 
 (* `if not pattern.endswith("$"): pattern += "$"` — a purely textual test *)
 Definition ends_dollar (s : str) : bool :=
@@ -397,14 +444,18 @@ Record pathm := mkPathm {
   pm_rx : regex;
   pm_tpl : option (str * nat);
   pm_text : str;    (* the pattern as written *)
-  pm_whole : bool   (* self._whole: built from a pattern string, not a precompiled re.Pattern *)
+  pm_whole : bool;  (* self._whole: built from a pattern string, not a precompiled re.Pattern *)
+  pm_names : list (option str)   (* group names, by position *)
 }.
 
 (* PathMatches(pattern_string) *)
 Definition compile_path (pat : str) : option pathm :=
   let p := add_dollar pat in
   match rx_parse p with
-  | Some rx => Some (mkPathm rx (find_groups p (count_groups (rx_pieces rx))) pat true)
+  | Some rx =>
+      if names_okb (pat_names p)
+      then Some (mkPathm rx (find_groups p (count_groups (rx_pieces rx))) pat true (pat_names p))
+      else None    (* AssertionError / re.error at construction *)
   | None => None
   end.
 
@@ -412,7 +463,10 @@ Definition compile_path (pat : str) : option pathm :=
    match() uses Pattern.match, _find_groups works on regex.pattern *)
 Definition compile_path_re (pat : str) : option pathm :=
   match rx_parse pat with
-  | Some rx => Some (mkPathm rx (find_groups pat (count_groups (rx_pieces rx))) pat false)
+  | Some rx =>
+      if names_okb (pat_names pat)
+      then Some (mkPathm rx (find_groups pat (count_groups (rx_pieces rx))) pat false (pat_names pat))
+      else None
   | None => None
   end.
 
